@@ -19,13 +19,15 @@ func init() {
 		ID: "C11",
 		Explanation: "Decided: (R1) the frame writer emits a 4-byte big-endian length of exactly the payload followed by the payload; the reader reads 4 bytes with the same byte order and then exactly that many bytes into the buffer it decodes; (R2) no value with internal read-ahead (bufio) wraps the connection unless it is stored in the connection object, and frames are read only by exact-length reads; " +
 			"(R3) every path through the frame reader re-arms exactly once, kills the connection actor, or is the clean-EOF exit, and a decoded frame is handed to HandleRemotingEnvelop exactly once before the re-arm; (R4) frames are written to the connection only under the connection's write lock (handshake: before publication); (R5) the four address strings, the system flag and the message keep their role from the sender's envelope through wire position, decode result and handler parameter to the rebuilt envelope, which is enqueued to the mailbox of the rebuilt receiver; " +
-			"(R6) envelope and handshake reader/writer signatures agree (C12.R1). NOT decided: exactly-once and order at run time for all burst sizes and TCP segmentations.",
+			"(R6) envelope and handshake reader/writer signatures agree (C12.R1). (R6) the central creates a mailbox for an address only on the miss edge of a lookup of the same key made in the same critical section as the insertion: two first senders to a fresh address cannot end up with two mailboxes, two connections and two independently read streams; (R7) the cached connection is cleared only on an edge where that connection failed (write error, Closed()): dropping a healthy connection (e.g. after an encode failure) opens a second stream while the first still has a backlog, and later messages overtake earlier ones. NOT decided: exactly-once and order at run time for all burst sizes and TCP segmentations.",
 		Rules: []Rule{
 			{ID: "C11.R1", Min: 4, Desc: "framing agreement", Fn: c11Framing},
 			{ID: "C11.R2", Min: 2, Desc: "no read-ahead loss; exact-length reads", Fn: c11ReadAhead},
 			{ID: "C11.R3", Min: 3, Desc: "re-arm discipline of the frame reader", Fn: c11Rearm},
 			{ID: "C11.R4", Min: 2, Desc: "single writer per connection", Fn: c11SingleWriter},
 			{ID: "C11.R5", Min: 12, Desc: "address / flag / message roles end to end", Fn: c11Roles},
+			{ID: "C11.R6", Min: 1, Desc: "one outbound mailbox (one ordered stream) per address", Fn: c11OneMailbox},
+			{ID: "C11.R7", Min: 1, Desc: "a healthy connection is never dropped", Fn: c11KeepHealthy},
 			{ID: "C11.R6", Min: 2, Desc: "envelope and handshake signatures agree", Fn: c11Wire},
 		},
 	})
@@ -33,7 +35,7 @@ func init() {
 		ID: "C14",
 		Explanation: "Decided: (R1) which blocking primitives are synchronously reachable from Tell (effect analysis over the call graph): the remoting send path's dial, handshake, retry sleep, writes and wait are a KNOWN FINDING (Tell blocks while the peer is unreachable, contrary to the documented contract); any other blocking primitive is a violation; " +
 			"(R2) every failing exit of the send loop is reported (C03.R6) and an encode failure aborts the loop with the error; (R3) once a non-zero frame length was read the reader never re-arms without consuming exactly that many bytes — paths that do not consume kill the connection actor; (R4) the retry limit is clamped to >= 0, the retry loop exits on it, nothing reachable from a retry iteration writes the attempt counter, a stopped system aborts; " +
-			"(R5) a failed write / closed connection clears the cached connection before the retry, and non-EOF read errors kill the connection actor without re-arming; (R6) an undecodable frame re-arms the reader; (R7) because the clean-EOF exit leaves the old connection actor registered, the name under which a connection actor is spawned contains a per-socket component, so a re-dial to the same peer does not collide with it. NOT decided: 'what it receives is a subsequence' under arbitrary cut points, duplicates after an ambiguous write error, recovery timing.",
+			"(R5) a failed write / closed connection clears the cached connection before the retry, and non-EOF read errors kill the connection actor without re-arming; (R6) an undecodable frame re-arms the reader; (R7) because the clean-EOF exit leaves the old connection actor registered, the name under which a connection actor is spawned contains a per-socket component, so a re-dial to the same peer does not collide with it. (R8) the retry helper object, which carries the attempt counter and is reset whenever a send returns, is created fresh for every mailbox (the value stored into the mailbox's field is an allocation or a constructor result): the per-peer lock then protects it, and traffic to a healthy peer cannot reset the count of an unreachable one. NOT decided: 'what it receives is a subsequence' under arbitrary cut points, duplicates after an ambiguous write error, recovery timing.",
 		Rules: []Rule{
 			{ID: "C14.R1", Min: 5, Desc: "Tell effect analysis (blocking primitives)", Fn: c14TellBlocks},
 			{ID: "C14.R2", Min: 3, Desc: "failure reported; encode failure aborts", Fn: c14Reported},
@@ -42,6 +44,7 @@ func init() {
 			{ID: "C14.R5", Min: 3, Desc: "broken connection dropped", Fn: c14Dropped},
 			{ID: "C14.R6", Min: 1, Desc: "decode failure continues", Fn: c14DecodeContinues},
 			{ID: "C14.R7", Min: 1, Desc: "a re-dialled connection can be registered", Fn: c14ConnName},
+			{ID: "C14.R8", Min: 1, Desc: "retry state is per mailbox, never shared between peers", Fn: c14OwnBackoff},
 		},
 	})
 	register(&Property{
@@ -1420,6 +1423,120 @@ func constSliceLen(v ssa.Value) int64 {
 	return -1
 }
 
+// c11OneMailbox: per-sender order relies on one connection per peer, i.e. one mailbox per address.
+func c11OneMailbox(p *Program, r *Report) {
+	rm := remOrFail(p, r)
+	if rm == nil {
+		return
+	}
+	n := 0
+	for _, fn := range p.Mod {
+		pk := fnPkg(fn)
+		if pk == nil || !strings.HasSuffix(pk.Path(), "/internal/remoting") || len(fn.Blocks) == 0 {
+			continue
+		}
+		g := p.ig(fn)
+		for i, in := range g.Nodes {
+			mu, ok := in.(*ssa.MapUpdate)
+			if !ok {
+				continue
+			}
+			mt, isMap := mu.Map.Type().Underlying().(*types.Map)
+			if !isMap || namedOf(mt.Elem()) != rm.MboxT {
+				continue
+			}
+			tbl, _ := fieldLoad(mu.Map)
+			if tbl == nil {
+				continue
+			}
+			n++
+			ok2 := false
+			for li, in2 := range g.Nodes {
+				lk, isL := in2.(*ssa.Lookup)
+				if !isL || !lk.CommaOk {
+					continue
+				}
+				if f, _ := fieldLoad(lk.X); f != tbl || !sameValue(lk.Index, mu.Key) {
+					continue
+				}
+				_, missing := g.okEdgesLookup(lk)
+				if len(missing) == 0 || !g.DominatedByEdges(i, missing) {
+					continue
+				}
+				// same critical section: no lock operation between the lookup and the insertion
+				same := true
+				after := g.ReachAfter(li, nil, nil)
+				for w, win := range g.Nodes {
+					if _, isCall := win.(*ssa.Call); !isCall || !after[w] {
+						continue
+					}
+					if op, _ := lockOp(win); op != "" && g.ReachAfter(w, nil, nil)[i] {
+						same = false
+					}
+				}
+				if same {
+					ok2 = true
+				}
+			}
+			r.Check(ok2, "mailbox inserted for an address in "+fnName(fn), mu.Pos(), "the insertion is dominated by the miss edge of a lookup of the same key, with no lock operation between that lookup and the insertion (check and insert form one critical section)")
+		}
+	}
+	if n == 0 {
+		r.Unresolved("insertion into the address → mailbox table")
+	}
+}
+
+// c11KeepHealthy: see the property explanation (R7).
+func c11KeepHealthy(p *Program, r *Report) {
+	rm := remOrFail(p, r)
+	if rm == nil {
+		return
+	}
+	n := 0
+	seen := map[*ssa.Function]bool{}
+	var fns []*ssa.Function
+	for _, root := range []*ssa.Function{rm.Enqueue, rm.SendLoop} {
+		for _, f := range withAnon(root) {
+			if !seen[f] {
+				seen[f] = true
+				fns = append(fns, f)
+			}
+		}
+	}
+	for _, fn := range fns {
+		g := p.ig(fn)
+		for i, in := range g.Nodes {
+			st, ok := in.(*ssa.Store)
+			if !ok || !isNilConst(st.Val) {
+				continue
+			}
+			if f, _ := fieldAddr(st.Addr); f != rm.ConnCache {
+				continue
+			}
+			n++
+			fail := g.edgesWhere(func(f cmpFact) bool {
+				if !f.IsNil || f.Op != token.NEQ {
+					return false
+				}
+				ex, isEx := f.X.(*ssa.Extract)
+				if !isEx {
+					return false
+				}
+				c, isC := ex.Tuple.(*ssa.Call)
+				return isC && c.Call.StaticCallee() != nil && c.Call.StaticCallee().Name() == "Write" && c.Call.StaticCallee().Signature.Recv() != nil && namedOf(c.Call.StaticCallee().Signature.Recv().Type()) == rm.ConnT
+			})
+			closedE, _ := callEdges(g, func(c *ssa.Call) bool {
+				return c.Call.StaticCallee() != nil && c.Call.StaticCallee().Name() == "Closed"
+			})
+			all := mergeEdges(fail, closedE)
+			r.Check(len(all) > 0 && g.DominatedByEdges(i, all), fmt.Sprintf("connection dropped in %s (#%d)", fnName(fn), n), st.Pos(), "the cached connection is cleared only on the error edge of a write to it or on its Closed() edge")
+		}
+	}
+	if n == 0 {
+		r.Unresolved("no site clearing the cached connection")
+	}
+}
+
 // leafCalls: the calls a (string) value is built from, through concatenation, fmt.Sprintf arguments, conversions and phis.
 func leafCalls(v ssa.Value) map[string]bool {
 	leaves := map[string]bool{}
@@ -1600,5 +1717,41 @@ func c14ConnName(p *Program, r *Report) {
 	}
 	if n == 0 {
 		r.Unresolved("spawn site of the connection actor")
+	}
+}
+
+// c14OwnBackoff: see the explanation (R8).
+func c14OwnBackoff(p *Program, r *Report) {
+	rm := remOrFail(p, r)
+	if rm == nil {
+		return
+	}
+	if rm.Try == nil || rm.Try.Signature.Recv() == nil {
+		r.Unresolved("retry helper type")
+		return
+	}
+	helperT := namedOf(rm.Try.Signature.Recv().Type())
+	var fld *types.Var
+	st := rm.MboxT.Underlying().(*types.Struct)
+	for i := 0; i < st.NumFields(); i++ {
+		if namedOf(st.Field(i).Type()) == helperT {
+			fld = st.Field(i)
+		}
+	}
+	if fld == nil {
+		r.Unresolved("retry helper field of the remoting mailbox")
+		return
+	}
+	n := 0
+	for _, a := range p.fieldAccesses(map[*types.Var]bool{fld: true}) {
+		st, ok := a.In.(*ssa.Store)
+		if !ok {
+			continue
+		}
+		n++
+		r.Check(p.freshValue(st.Val, 0), "retry helper stored in "+fnName(a.Fn), st.Pos(), "the value stored into the mailbox's retry-helper field is created for this mailbox (allocation / constructor result), not handed in from shared state")
+	}
+	if n == 0 {
+		r.Unresolved("no store into the mailbox's retry-helper field")
 	}
 }
